@@ -81,10 +81,23 @@ class PepRecorder:
     def __call__(self, scores, targets, algorithm="qvality"):
         import z3
         from symx import symnp, core
+        if algorithm == "qvality" and len(targets.items) and bool(core.s_and(*list(targets.items))):
+            # contract of the kernel (probed: triqler via peps_from_scores): without a single decoy it leaves through
+            # SystemExit with this message, which _assign_confidence catches
+            raise SystemExit("ERROR: no decoy hits available for PEP calculation")
         k = len(self.calls)
         out = [core.SNum(z3.Real("pep%d_%d" % (k, j))) for j in range(len(scores))]
         self.calls.append((list(scores.items), list(targets.items), out))
         return symnp.SArray(list(out), symnp.float64)
+
+
+def real_pep_stub(s, t, a="qvality"):
+    """PEP routine of the replays (the real estimators cannot run on a handful of PSMs): constant 0.5, and - like the
+    real qvality kernel - SystemExit when there is no decoy"""
+    import numpy as np
+    if a == "qvality" and len(t) and bool(np.all(np.asarray(t, dtype=bool))):
+        raise SystemExit("ERROR: no decoy hits available for PEP calculation")
+    return np.full(len(s), 0.5)
 
 
 class PsmsStub:
